@@ -335,6 +335,102 @@ theorem atoiAux_digits (ds : Bytes) (out : Int) (k : Nat) (hd : ∀ c ∈ ds, 48
     exact ih _ (k + 1) (fun x hx => hd x (by simp [hx])) (by omega) hk1 (by simp at hl ⊢; omega)
 
 
+theorem readLineAux_overlong (n : Nat) : ∀ (s acc : Bytes), n ≤ s.length → (∀ b ∈ s.take n, (b == 10) = false) →
+    readLineAux n s acc = .err := by
+  induction n with
+  | zero => intro s acc _ _; simp [readLineAux]
+  | succ n ih =>
+    intro s acc hl hb
+    cases s with
+    | nil => simp at hl
+    | cons a t =>
+      have ha : (a == 10) = false := hb a (by simp)
+      simp only [readLineAux, ha]
+      exact ih t _ (by simpa using hl) (fun b h => hb b (by simp [h]))
+
+/-- a stream that starts with "PROXY" and has no LF among its first 256 bytes -/
+theorem parse_v1_overlong (s : Bytes) (hp : s.take 5 = proxyWord) (hl : 256 ≤ s.length)
+    (hb : ∀ b ∈ s.take 256, (b == 10) = false) : parse s = .err ∧ errRest s = s.drop 256 := by
+  have hlen : ¬ (s.length < 5) := by omega
+  have hrl : readLineAux 256 s [] = .err := readLineAux_overlong 256 s [] hl hb
+  constructor
+  · unfold parse parseWith
+    simp only [hlen, if_false, hp, if_true]
+    unfold parseV1 readLine
+    rw [hrl]; rfl
+  · unfold errRest readLine
+    simp only [hlen, if_false, hp, if_true, hrl]
+
+theorem digit_not_space (c : UInt8) (h : 48 ≤ c.toNat ∧ c.toNat ≤ 57) : isSpace c = false := by
+  have key : ∀ k : UInt8, k.toNat < 48 → (c == k) = false := by
+    intro k hk
+    simp only [beq_eq_false_iff_ne, ne_eq]
+    intro e; subst e; omega
+  unfold isSpace
+  simp [key 9 (by decide), key 10 (by decide), key 11 (by decide), key 12 (by decide), key 13 (by decide), key 32 (by decide)]
+
+/-- a decimal port token -/
+def Digits (t : Bytes) : Prop := t ≠ [] ∧ ∀ c ∈ t, 48 ≤ c.toNat ∧ c.toNat ≤ 57
+
+theorem digits_tok (t : Bytes) (h : Digits t) : Tok t := ⟨h.1, fun b hb => digit_not_space b (h.2 b hb)⟩
+
+theorem toUpper_length (l : Bytes) : (toUpper l).length = l.length := by simp [toUpper]
+
+theorem errRest_encV2 (vc ft : UInt8) (payload rest : Bytes) (hn : payload.length < 65536) :
+    errRest (encV2 vc ft payload ++ rest) = rest := by
+  have hs : encV2 vc ft payload ++ rest = v2Sig ++ ([vc, ft] ++ (put16 payload.length ++ (payload ++ rest))) := by
+    simp [encV2, List.append_assoc]
+  rw [hs]
+  have hput : put16 payload.length = [UInt8.ofNat (payload.length / 256 % 256), UInt8.ofNat (payload.length % 256)] := rfl
+  have hb := be16_put16 payload.length hn
+  rw [hput] at hb
+  unfold errRest
+  simp only [v2Sig, hput, List.cons_append, List.nil_append, List.length_cons, List.take_succ_cons, List.take_zero,
+    List.drop_succ_cons, List.drop_zero, proxyWord, v2Sig5]
+  simp [hb]
+  rw [if_neg (by omega), if_neg (by omega), if_neg (by omega), if_neg (by omega)]
+
+/-- the stream ends inside the v2 header's declared payload -/
+theorem parse_v2_truncated (vc ft : UInt8) (n : Nat) (avail : Bytes) (hn : n < 65536) (ha : avail.length < n) :
+    parse (v2Sig ++ [vc, ft] ++ put16 n ++ avail) = .err ∧ errRest (v2Sig ++ [vc, ft] ++ put16 n ++ avail) = [] := by
+  have hput : put16 n = [UInt8.ofNat (n / 256 % 256), UInt8.ofNat (n % 256)] := rfl
+  have hb := be16_put16 n hn
+  rw [hput] at hb
+  constructor
+  · unfold parse parseWith parseV2 parseV2With
+    simp only [v2Sig, hput, List.cons_append, List.nil_append, List.length_cons, List.take_succ_cons, List.take_zero,
+      List.drop_succ_cons, List.drop_zero, proxyWord, v2Sig5]
+    simp [hb, ha]
+  · unfold errRest
+    simp only [v2Sig, hput, List.cons_append, List.nil_append, List.length_cons, List.take_succ_cons, List.take_zero,
+      List.drop_succ_cons, List.drop_zero, proxyWord, v2Sig5]
+    simp [hb, ha]
+    rw [if_neg (by omega), if_neg (by omega)]
+
+theorem errRest_suffix (s : Bytes) : ∃ consumed, s = consumed ++ errRest s := by
+  unfold errRest
+  split
+  · exact ⟨[], rfl⟩
+  · split
+    · unfold readLine
+      split
+      · rename_i line rest h
+        have := readLineAux_split _ _ _ _ _ h
+        exact ⟨line, by simpa using this⟩
+      · exact ⟨s.take 256, (List.take_append_drop 256 s).symm⟩
+    · split
+      · split
+        · exact ⟨[], rfl⟩
+        · split
+          · split
+            · exact ⟨s, by simp⟩
+            · dsimp only
+              split
+              · exact ⟨s, by simp⟩
+              · exact ⟨s.take 16 ++ (s.drop 16).take _, by rw [List.append_assoc, List.take_append_drop, List.take_append_drop]⟩
+          · exact ⟨[], rfl⟩
+      · exact ⟨[], rfl⟩
+
 end KafVerif.ProxyProto
 
 namespace KafVerif.C26
@@ -428,9 +524,9 @@ theorem v1_roundtrip (proto src dst sport dport rest : Bytes)
   simp [hu]
 
 /-- (5b) v1 `PROXY UNKNOWN\r\n` (any letter case): local, stream preserved. -/
-theorem v1_unknown_roundtrip (proto rest : Bytes) (h1 : Tok proto) (hu : toUpper proto = unknownWord)
-    (hlen : proto.length ≤ 200) :
+theorem v1_unknown_roundtrip (proto rest : Bytes) (h1 : Tok proto) (hu : toUpper proto = unknownWord) :
     parse (proxyWord ++ sp ++ proto ++ crlf ++ rest) = .ok (some localInfo, rest) := by
+  have hlen : proto.length = 7 := by rw [← toUpper_length, hu]; rfl
   have hf : fields ((proxyWord ++ sp ++ proto ++ [0x0d]) ++ [10]) = [proxyWord, proto] := by
     unfold fields sp
     simp only [List.append_assoc, List.cons_append, List.nil_append]
@@ -464,12 +560,134 @@ theorem parseOld_misreads_tcp6 :
    { isLocal := false, srcIP := [0x20, 0x01, 0x0d, 0xb8], dstIP := [0, 0, 0, 0], srcPort := 0, dstPort := 0, srcAddr := [], dstAddr := [] },
    [1, 2], by decide, by decide, rfl, rfl⟩
 
+/-- (5d) v1 with decimal port tokens (1..18 digits, leading zeros allowed): the reported ports are the decimal values. -/
+theorem v1_roundtrip_decimal_ports (proto src dst sport dport rest : Bytes)
+    (h1 : Tok proto) (h2 : Tok src) (h3 : Tok dst) (h4 : Digits sport) (h5 : Digits dport)
+    (l4 : sport.length ≤ 18) (l5 : dport.length ≤ 18)
+    (hu : toUpper proto ≠ unknownWord) (hlen : (encV1 proto src dst sport dport).length ≤ 256) :
+    parse (encV1 proto src dst sport dport ++ rest) =
+      .ok (some { isLocal := false, srcIP := src, dstIP := dst, srcPort := decVal sport, dstPort := decVal dport,
+                  srcAddr := joinHostPort src sport, dstAddr := joinHostPort dst dport }, rest) := by
+  rw [v1_roundtrip proto src dst sport dport rest h1 h2 h3 (digits_tok _ h4) (digits_tok _ h5) hu hlen,
+    v1_port_decimal sport h4.2 l4, v1_port_decimal dport h5.2 l5]
+
+set_option maxRecDepth 4000 in
+/-- (5e) The code does not range-check ports: a decimal token above 65535 is reported as its value (so "≤ 65535" is a
+property of the sender, not a hypothesis the parser needs), and 2^64+1 wraps to 1. -/
+theorem v1_port_not_range_checked :
+    atoiOrZero [0x36, 0x35, 0x35, 0x33, 0x36] = 65536 ∧
+    atoiOrZero [0x31,0x38,0x34,0x34,0x36,0x37,0x34,0x34,0x30,0x37,0x33,0x37,0x30,0x39,0x35,0x35,0x31,0x36,0x31,0x37] = 1 := by
+  decide
+
+/-- (5f) Boundary: a v1 line of exactly the maximum accepted length (256 bytes including CR LF) round-trips. -/
+theorem v1_max_length_roundtrip (proto src dst sport dport rest : Bytes)
+    (h1 : Tok proto) (h2 : Tok src) (h3 : Tok dst) (h4 : Tok sport) (h5 : Tok dport)
+    (hu : toUpper proto ≠ unknownWord) (hlen : (encV1 proto src dst sport dport).length = 256) :
+    parse (encV1 proto src dst sport dport ++ rest) =
+      .ok (some { isLocal := false, srcIP := src, dstIP := dst, srcPort := atoiOrZero sport, dstPort := atoiOrZero dport, srcAddr := joinHostPort src sport, dstAddr := joinHostPort dst dport }, rest) :=
+  v1_roundtrip proto src dst sport dport rest h1 h2 h3 h4 h5 hu (by omega)
+
+/-- (5g) Boundary: one byte longer (and any longer line) is rejected, and the parser has consumed exactly 256 bytes — for a
+257-byte line everything but its final LF — and not a byte more. -/
+theorem v1_overlong_rejected (proto src dst sport dport rest : Bytes)
+    (h1 : Tok proto) (h2 : Tok src) (h3 : Tok dst) (h4 : Tok sport) (h5 : Tok dport)
+    (hlen : 256 < (encV1 proto src dst sport dport).length) :
+    parse (encV1 proto src dst sport dport ++ rest) = .err ∧
+    errRest (encV1 proto src dst sport dport ++ rest) = (encV1 proto src dst sport dport ++ rest).drop 256 := by
+  have hbody : encV1 proto src dst sport dport =
+      (proxyWord ++ sp ++ proto ++ sp ++ src ++ sp ++ dst ++ sp ++ sport ++ sp ++ dport ++ [0x0d]) ++ [10] := by
+    simp [encV1, crlf, List.append_assoc]
+  have t := fun x (h : Tok x) => tok_no_lf x h.2
+  have hnolf := (nolf_append (nolf_append (nolf_append (nolf_append (nolf_append (nolf_append (nolf_append (nolf_append (nolf_append (nolf_append
+      (nolf_append (t _ proxyWord_tok) mem_nolf_sp) (t _ h1)) mem_nolf_sp) (t _ h2)) mem_nolf_sp) (t _ h3)) mem_nolf_sp) (t _ h4)) mem_nolf_sp) (t _ h5)) mem_nolf_cr)
+  rw [hbody] at hlen ⊢
+  have hp5 : (proxyWord ++ sp ++ proto ++ sp ++ src ++ sp ++ dst ++ sp ++ sport ++ sp ++ dport ++ [0x0d]).take 5 = proxyWord := by
+    simp [proxyWord, List.append_assoc]
+  generalize (proxyWord ++ sp ++ proto ++ sp ++ src ++ sp ++ dst ++ sp ++ sport ++ sp ++ dport ++ [0x0d]) = B at *
+  have hB : 256 ≤ B.length := by simp at hlen; omega
+  have htk : (B ++ [10] ++ rest).take 256 = B.take 256 := by
+    rw [List.append_assoc, List.take_append_of_le_length hB]
+  apply parse_v1_overlong
+  · rw [List.append_assoc, List.take_append_of_le_length (by omega)]; exact hp5
+  · simp; omega
+  · rw [htk]; intro b hb; exact hnolf b (List.mem_of_mem_take hb)
+
+
+/-- (4d) v2 PROXY command whose address family is neither AF_INET nor AF_INET6 (AF_UNSPEC 0, AF_UNIX 3, reserved 4..15; any
+transport nibble, any payload): as coded the result is "no info" (`nil, nil`) — and the header with its whole declared payload
+is consumed, so the stream after it is preserved exactly: input = header ++ rest, reader gets rest. -/
+theorem v2_unhandled_family (vc ft : UInt8) (payload rest : Bytes) (hn : payload.length < 65536)
+    (hc : vc.toNat % 16 ≠ 0) (hf : ft.toNat / 16 ≠ 1 ∧ ft.toNat / 16 ≠ 2) :
+    parse (encV2 vc ft payload ++ rest) = .ok (none, rest) := by
+  rw [parse_encV2 vc ft payload rest hn]; simp [hc, hf.1, hf.2]
+
+/-- (4e) The transport nibble (low half of byte 13: STREAM/DGRAM/other) and the version nibble (high half of byte 12) do not
+influence the result, as coded. -/
+theorem v2_transport_and_version_nibbles_ignored (vc vc' ft ft' : UInt8) (payload rest : Bytes) (hn : payload.length < 65536)
+    (hv : vc.toNat % 16 = vc'.toNat % 16) (hf : ft.toNat / 16 = ft'.toNat / 16) :
+    parse (encV2 vc ft payload ++ rest) = parse (encV2 vc' ft' payload ++ rest) := by
+  rw [parse_encV2 vc ft payload rest hn, parse_encV2 vc' ft' payload rest hn, hv, hf]
+
+/-- (4f) Boundary: length field 0xFFFF (the largest a header can declare), LOCAL command. -/
+theorem v2_max_length_local (vc ft : UInt8) (payload rest : Bytes) (hn : payload.length = 65535)
+    (hc : vc.toNat % 16 = 0) : parse (encV2 vc ft payload ++ rest) = .ok (some localInfo, rest) :=
+  v2_local_roundtrip vc ft payload rest (by omega) hc
+
+/-- (4g) Boundary: length field 0xFFFF, PROXY command over IPv4 with 65523 bytes of TLVs / IPv6 with 65499. -/
+theorem v2_max_length_inet (vc ft : UInt8) (src dst tlv rest : Bytes) (sp dp : Nat)
+    (hc : vc.toNat % 16 ≠ 0) (hf : ft.toNat / 16 = 1) (h1 : src.length = 4) (h2 : dst.length = 4)
+    (h3 : sp < 65536) (h4 : dp < 65536) (ht : tlv.length = 65523) :
+    parse (encV2 vc ft (src ++ dst ++ put16 sp ++ put16 dp ++ tlv) ++ rest) =
+      .ok (some { isLocal := false, srcIP := src, dstIP := dst, srcPort := sp, dstPort := dp, srcAddr := [], dstAddr := [] }, rest) :=
+  v2_inet_roundtrip vc ft src dst tlv rest sp dp hc hf h1 h2 h3 h4 (by simp [put16, h1, h2, ht])
+
+theorem v2_max_length_inet6 (vc ft : UInt8) (src dst tlv rest : Bytes) (sp dp : Nat)
+    (hc : vc.toNat % 16 ≠ 0) (hf : ft.toNat / 16 = 2) (h1 : src.length = 16) (h2 : dst.length = 16)
+    (h3 : sp < 65536) (h4 : dp < 65536) (ht : tlv.length = 65499) :
+    parse (encV2 vc ft (src ++ dst ++ put16 sp ++ put16 dp ++ tlv) ++ rest) =
+      .ok (some { isLocal := false, srcIP := src, dstIP := dst, srcPort := sp, dstPort := dp, srcAddr := [], dstAddr := [] }, rest) :=
+  v2_inet6_roundtrip vc ft src dst tlv rest sp dp hc hf h1 h2 h3 h4 (by simp [put16, h1, h2, ht])
+
+/-- (4h) A PROXY command whose declared payload is too short for its family's address block is rejected, having consumed
+exactly header + declared payload. -/
+theorem v2_short_address_rejected (vc ft : UInt8) (payload rest : Bytes) (hn : payload.length < 65536)
+    (hc : vc.toNat % 16 ≠ 0)
+    (hf : (ft.toNat / 16 = 1 ∧ payload.length < 12) ∨ (ft.toNat / 16 = 2 ∧ payload.length < 36)) :
+    parse (encV2 vc ft payload ++ rest) = .err ∧ errRest (encV2 vc ft payload ++ rest) = rest := by
+  refine ⟨?_, errRest_encV2 vc ft payload rest hn⟩
+  rw [parse_encV2 vc ft payload rest hn]
+  rcases hf with ⟨hf, hl⟩ | ⟨hf, hl⟩
+  · simp [hc, hf, parseV2Inet, hl, GoResult.bind]
+  · simp [hc, hf, parseV2Inet6, hl, GoResult.bind]
+
+/-- (4i) A header that declares more payload than the stream holds (any declared length up to 0xFFFF) is rejected. -/
+theorem v2_truncated_rejected (vc ft : UInt8) (n : Nat) (avail : Bytes) (hn : n < 65536) (ha : avail.length < n) :
+    parse (v2Sig ++ [vc, ft] ++ put16 n ++ avail) = .err ∧ errRest (v2Sig ++ [vc, ft] ++ put16 n ++ avail) = [] :=
+  parse_v2_truncated vc ft n avail hn ha
+
+/-- (3b) Also when the header is REJECTED the wrapped connection delivers a suffix of what was sent. -/
+theorem err_remainder_suffix (s : Bytes) : ∃ consumed, s = consumed ++ errRest s := errRest_suffix s
+
 /-! non-vacuity -/
 example : Tok [0x54, 0x43, 0x50, 0x34] := ⟨by decide, by decide⟩
 example : parse (encV1 [0x54, 0x43, 0x50, 0x34] [0x31] [0x32] [0x38, 0x30] [0x39] ++ [7, 7]) =
     .ok (some { isLocal := false, srcIP := [0x31], dstIP := [0x32], srcPort := 80, dstPort := 9, srcAddr := [0x31, 0x3a, 0x38, 0x30], dstAddr := [0x32, 0x3a, 0x39] }, [7, 7]) := by decide
 set_option maxRecDepth 8000 in
 example : parse (tcp6Header ++ [1, 2]) = .ok (some { isLocal := false, srcIP := [0x20, 0x01, 0x0d, 0xb8, 0, 0, 0, 0, 0, 0, 0, 0, 0, 0, 0, 1], dstIP := [0x20, 0x01, 0x0d, 0xb8, 0, 0, 0, 0, 0, 0, 0, 0, 0, 0, 0, 2], srcPort := 51234, dstPort := 9092, srcAddr := [], dstAddr := [] }, [1, 2]) := by decide
+-- a 256-byte v1 line (236-byte source token) is accepted, the 257-byte one is rejected with its LF left in the stream
+set_option maxRecDepth 100000 in
+example : (encV1 [0x54, 0x43, 0x50, 0x34] (List.replicate 236 0x31) [0x32] [0x38, 0x30] [0x39]).length = 256 := by decide
+set_option maxRecDepth 100000 in
+example : parse (encV1 [0x54, 0x43, 0x50, 0x34] (List.replicate 236 0x31) [0x32] [0x38, 0x30] [0x39] ++ [7]) =
+    .ok (some { isLocal := false, srcIP := List.replicate 236 0x31, dstIP := [0x32], srcPort := 80, dstPort := 9,
+                srcAddr := List.replicate 236 0x31 ++ [0x3a, 0x38, 0x30], dstAddr := [0x32, 0x3a, 0x39] }, [7]) := by decide
+set_option maxRecDepth 100000 in
+example : parse (encV1 [0x54, 0x43, 0x50, 0x34] (List.replicate 237 0x31) [0x32] [0x38, 0x30] [0x39] ++ [7]) = .err ∧
+    errRest (encV1 [0x54, 0x43, 0x50, 0x34] (List.replicate 237 0x31) [0x32] [0x38, 0x30] [0x39] ++ [7]) = [10, 7] := by decide
+example : Digits [0x36, 0x35, 0x35, 0x33, 0x35] := ⟨by decide, by decide⟩
+-- AF_UNIX (family 3) PROXY command: no info, stream preserved
+example : parse (encV2 0x21 0x31 [1, 2, 3] ++ [9, 9]) = .ok (none, [9, 9]) := by decide
+example : parse (encV2 0x21 0x11 [1, 2, 3] ++ [9, 9]) = .err ∧ errRest (encV2 0x21 0x11 [1, 2, 3] ++ [9, 9]) = [9, 9] := by decide
 example : ¬ startsWithHeader [0, 0, 0, 5, 1, 2, 3, 4, 5] := by unfold startsWithHeader; decide
 example : parse [0x50, 0x52] = .ok (none, [0x50, 0x52]) := by decide
 
